@@ -81,7 +81,7 @@ def run_a7(chk, A7, repo):
         """'true' / 'false' if every path to node takes that edge of a test on `flag`, else None"""
         for t in tests:
             e = t.ast
-            if isinstance(e, ast.Name) and e.id == flag:
+            if isinstance(e, (ast.Name, ast.Attribute)) and unparse(e) == flag:
                 for pol in ('true', 'false'):
                     if cfg.edge_dominates(t.id, pol, node.id):
                         return pol
@@ -89,8 +89,9 @@ def run_a7(chk, A7, repo):
     # the flag guarding the squaring is the SD flag
     sdflag = None
     for t in tests:
-        if isinstance(t.ast, ast.Name) and cfg.edge_dominates(t.id, 'true', square_nodes[0].id):
-            sdflag = t.ast.id   # innermost wins: keep the last dominating test
+        # the flag may be a local (`sd`) or a field of a record of flags (`flags.sd`)
+        if isinstance(t.ast, (ast.Name, ast.Attribute)) and cfg.edge_dominates(t.id, 'true', square_nodes[0].id):
+            sdflag = unparse(t.ast)   # innermost wins: keep the last dominating test
     if sdflag is None:
         raise AnalysisError('A7: the diagonal squaring is not guarded by a flag')
     chk.instance(A7, f'diagonal squaring `{square_nodes[0].text()}` guarded by `{sdflag}`')
@@ -122,7 +123,7 @@ def run_a7(chk, A7, repo):
                                   witness='$OMEGA BLOCK(2) STANDARD CORRELATION 2 0.5 3: covariance becomes 0.5*4*9 instead '
                                           'of 0.5*2*3')
     # diagonal records: SD init is squared
-    sq_diag = [n for n in walk_no_nested(f.node) if isinstance(n, ast.If) and isinstance(n.test, ast.Name)
+    sq_diag = [n for n in walk_no_nested(f.node) if isinstance(n, ast.If) and isinstance(n.test, (ast.Name, ast.Attribute))
                and any(isinstance(s_, ast.Assign) and isinstance(s_.value, ast.BinOp) and isinstance(s_.value.op, ast.Pow)
                        and isinstance(s_.value.right, ast.Constant) and s_.value.right.value == 2
                        and unparse(s_.targets[0]) == unparse(s_.value.left) for s_ in n.body)]
